@@ -5,7 +5,7 @@ import json
 units=json.load(open('/verif/contracts/units.json'))['units']
 for uname,u in units.items():
     for fl in u['flavours'][:1] + u['flavours'][2:3] if len(u['flavours'])>2 else u['flavours'][:1]:
-        g=gen.generate('/verif/contracts/%s.vx'%uname,fl)
+        g=gen.generate('/verif/contracts/%s'%u['template'],fl)
         text=g.lines
         byname={}
         for f in g.fns: byname.setdefault(f['name'],[]).append(f)
